@@ -330,6 +330,7 @@ def run(ctx):
                             ctx.violation(f"C18/cell/{'raw' if raw_mode else 'derived'}/{name[:3]}", f"{name} row {r_}: cell {cv!r} (dtype {col.dtype}) != parsed {'raw ' if raw_mode else ''}value {w_!r}",
                                           {"name": name, "mode": "raw" if raw_mode else "derived", "apid": apid, "row": r_})
     same_names_section(ctx, tmp)
+    edges_section(ctx, tmp)
     forwarding_section(ctx, tmp)
     forwarding_segments(ctx, tmp)
     ctx.traces += 2
@@ -389,6 +390,61 @@ def same_names_section(ctx, tmp):
                                       f"same names: {nm} row {r_} = {c.item() if isinstance(c, np.generic) else c!r} (dtype {col.dtype}), parsed {w_!r}",
                                       {"variant": tag, "name": nm, "row": r_})
                         break
+
+
+def edges_section(ctx, tmp):
+    """The ends of the input space: the smallest files there are (one packet of one data byte: 7 bytes; an empty file between
+    others), and the whole APID range including its two ends (0, 2047) next to ordinary ones. One layout for every APID (a
+    concrete root: header + one byte), so every packet of every file is a row of its APID's dataset, in the order of the files."""
+    from space_packet_parser import xarr
+    d = xdoc.new_defn("ROOT")
+    for nm, w in HDR:
+        xdoc.add_param(d, nm, uint(w))
+    xdoc.add_param(d, "V", uint(8))
+    xdoc.add_container(d, "ROOT", [("p", nm) for nm, _ in HDR] + [("p", "V")])
+    dobj = xdoc.build(d)
+    rng = ctx.rng
+    apids = [0, 1, 2046, 2047, 1024, 5]
+    lists = [[[a]] for a in apids]                                          # one file holding one minimal packet
+    lists += [[[a], [b]] for a in apids[:4] for b in apids[:4]]             # two such files
+    lists += [[[2047, 0, 2047], [], [0]], [[], [5]], [[1], [], [1], [2047]], [[0, 1, 2046, 2047, 0, 1, 2046, 2047]]]
+    for _ in range(10 if ctx.quick else 200):
+        lists.append([[rng.choice(apids) for _ in range(rng.choice([0, 1, 1, 2, 3]))] for _ in range(rng.choice([1, 2, 3, 4]))])
+    for li, files in enumerate(lists):
+        n, want, files_pk = 0, {}, []
+        for f in files:
+            pks = []
+            for a in f:
+                n += 1
+                v = (37 * n + 11) % 256
+                pks.append(defs.mk_packet(bytes([v]), apid=a, seq=n))
+                want.setdefault(a, []).append((n, v))
+            files_pk.append(pks)
+        if not want:
+            continue
+        paths = write_files(tmp, files_pk, f"edge{li}")
+        ctx.traces += 1
+        ctx.count(("edges", json.dumps(files)))
+        prob = None
+        try:
+            with warnings.catch_warnings():
+                warnings.simplefilter("ignore")
+                ds = xarr.create_dataset(paths, dobj, root_container_name="ROOT")
+            if set(ds) != set(want):
+                prob = f"datasets for APIDs {sorted(ds)}; the files hold packets of APIDs {sorted(want)}"
+            else:
+                for a, rows in want.items():
+                    have = [(int(x), int(y)) for x, y in zip(ds[a]["SEQC"].values, ds[a]["V"].values)]
+                    if have != rows:
+                        prob = f"APID {a}: rows (sequence count, V) {have}; the files hold {rows}"
+                        break
+        except Exception as e:  # noqa: BLE001
+            prob = f"create_dataset raised {type(e).__name__}: {e}"[:300]
+        for pth in paths:
+            os.unlink(pth)
+        if prob:
+            ctx.violation("C18/edges/" + ("datasets" if prob.startswith("datasets") else "raised" if "raised" in prob else "rows"),
+                          f"files (APID of each one-data-byte packet) {files}: {prob}", {"files": files})
 
 
 def forwarding_section(ctx, tmp):
